@@ -3987,29 +3987,38 @@ def c08_project_one_axis(ns, axis, n):
         if n > N:
             paths = ex.run(fr, [data, n], dict(axis=axis))
             return [struct(oid + '.refused', len(paths) == 1 and paths[0].outcome == 'raise', 'projecting up raises', fn)]
-        paths = ex.run(fr, [data, n], dict(axis=axis))
-        if len(paths) != 1 or paths[0].outcome != 'return' or len(made) != 1:
-            return [struct(oid, False, 'expected one returning path constructing one Spectrum: %r' % paths[:2], fn, undecided=True)]
-        res = paths[0].value
-        pc = list(paths[0].pc)
+        def thunk(e):
+            del made[:]
+            r = e.apply(fr.node, None, fr.mod, [data, n], dict(axis=axis), 'Spectrum._project_one_axis')
+            return r, len(made)
+        paths = ex.explore(thunk)
+        # one path on the unchanged code; a version that branches on the entries (skipping empty slices, say) is followed on every branch
+        if not paths or len(paths) > 64 or any(p.outcome != 'return' or p.value[1] != 1 for p in paths):
+            return [struct(oid, False, 'expected returning paths constructing one Spectrum each (at most 64): %r' % paths[:2], fn, undecided=True)]
+        out = []
         new_shape = shape[:axis] + (n + 1,) + shape[axis + 1:]
-        got_shape = ex.list_method(res, 'shape') if isinstance(res, VList) else None
-        out = [struct(oid + '.shape', got_shape == new_shape, 'shape %s (got %s)' % (new_shape, got_shape), fn)]
-        if got_shape != new_shape:
-            return out
-        rmask = res.__dict__.get('attrs', {}).get('mask')
         b = lambda x: z3.BoolVal(x) if isinstance(x, bool) else x
-        for j in itertools.product(*[range(s) for s in new_shape]):
-            want = z3.RealVal(0)
-            wm = []
-            for hits in range(N + 1):
-                least, most = max(n - (N - hits), 0), min(hits, n)
-                if least <= j[axis] <= most:
-                    src = j[:axis] + (hits,) + j[axis + 1:]
-                    want = want + z3.Real('P(%d,%d,%d)[%d]' % (n, N, hits, j[axis])) * f0[src]
-                    wm.append(m0[src])
-            out.append(prove_eq('%s.entry%s' % (oid, '_'.join(map(str, j))), pc, _nd_get(res, j), want, fn))
-            out.append(prove('%s.mask%s' % (oid, '_'.join(map(str, j))), pc, b(_nd_get(rmask, j)) == z3.Or(wm + [z3.BoolVal(False)]), fn))
+        for pi, pth in enumerate(paths):
+            o = oid if len(paths) == 1 else '%s.branch%d' % (oid, pi)
+            res = pth.value[0]
+            pc = list(pth.pc)
+            got_shape = ex.list_method(res, 'shape') if isinstance(res, VList) else None
+            out.append(struct(o + '.shape', got_shape == new_shape, 'shape %s (got %s)' % (new_shape, got_shape), fn))
+            if got_shape != new_shape:
+                continue
+            rmask = res.__dict__.get('attrs', {}).get('mask')
+            for j in itertools.product(*[range(s) for s in new_shape]):
+                want = z3.RealVal(0)
+                wm = []
+                for hits in range(N + 1):
+                    least, most = max(n - (N - hits), 0), min(hits, n)
+                    if least <= j[axis] <= most:
+                        src = j[:axis] + (hits,) + j[axis + 1:]
+                        want = want + z3.Real('P(%d,%d,%d)[%d]' % (n, N, hits, j[axis])) * f0[src]
+                        wm.append(m0[src])
+                out.append(prove_eq('%s.entry%s' % (o, '_'.join(map(str, j))), pc, _nd_get(res, j), want, fn, finding_key='C08/project_one_axis/value'))
+                out.append(prove('%s.mask%s' % (o, '_'.join(map(str, j))), pc, b(_nd_get(rmask, j)) == z3.Or(wm + [z3.BoolVal(False)]), fn,
+                                 finding_key='C08/project_one_axis/mask'))
         return out
     return go()
 
